@@ -14,6 +14,8 @@ import RsMatterVerif.Lemmas.CodecCertAsn1
 import RsMatterVerif.Lemmas.CodecBleRecovery
 import RsMatterVerif.Lemmas.CodecMdnsRound
 import RsMatterVerif.Lemmas.CodecMdnsService
+import RsMatterVerif.Lemmas.CodecX509Sound -- E3
+import RsMatterVerif.Lemmas.CodecCd -- E3
 /-!
 # C17 — headers, onboarding payloads and discovery records decode what was encoded
 
@@ -27,8 +29,8 @@ The proofs live in `Lemmas/Codec*.lean`; this file states the property-level the
 Round 2 added: the BLE recovery advertisement and the mDNS wire format (sections D16b-1 / D16b-2), the
 DER writer + Matter-TLV → X.509 conversion with a DER reader as the inverse (section 11), the DER
 reading layer, `der_utils.rs` and the CMS envelope of the certification declaration (section D16d).
-Still exercised on the implementation only (nothing is claimed for them here): the X.509
-DAC/PAI/PAA field walk, the CSR parser, the TLV content / validation of the certification declaration.
+Round 3 (section E3): the X.509 DAC/PAI/PAA field walk (`cert/x509/cert.rs`), the CSR parser (`cert/x509/csr.rs`) and
+the TLV content / `validate` rules of the certification declaration (`attest/cd.rs`) — totality, round trip, refusal.
 -/
 namespace C17
 open Codec
@@ -852,5 +854,240 @@ theorem mdns_matter_service_round_trip (h : HostCfg) (l : LocalSvc) (dd : DevDet
   matterService_round_trip h l dd port icd hostTtl svcTtl scope hdd hhost hip hip6 hn6 hport ht1 ht2
 example : NameWF (hostFqdn mdnsSampleHost) ∧ mdnsSampleHost.ip.length = 4 ∧ (∀ a ∈ mdnsSampleHost.ipv6, a.length = 16) ∧
     mdnsSampleHost.ipv6.length ≤ 1000 := by decide
+
+end C17
+
+
+/-! ## (E3) the DER-based decoders on top of the reading layer: X.509 DAC / PAI / PAA (`cert/x509/cert.rs`), CSR
+(`cert/x509/csr.rs`), the TLV content of the certification declaration and its validation (`attest/cd.rs`)
+
+Models: `Model/Codec/X509.lean`, `Model/Codec/CdContent.lean`; proofs: `Lemmas/CodecX509.lean` (totality),
+`Lemmas/CodecX509Time.lean` (calendar), `Lemmas/CodecX509Round.lean` (round trips), `Lemmas/CodecX509Sound.lean`
+(what is accepted), `Lemmas/CodecCd.lean`. -/
+namespace C17
+open Codec.DerRd
+
+/-! ### X.509 -/
+
+/-- **`X509Cert::new` is total**: for each certificate type, on arbitrary bytes (no `< 256` assumption), the parser
+answers a certificate or an error — never a panic, never an exhausted loop (extension / RDN / attribute /
+context-specific loops run on fuel `|data| + 1`) —, and the slices its accessors hand out (`subject_key_id`,
+`authority_key_id`, `public_key`) are ranges of the input at the reported positions; the key has 65 octets -/
+theorem x509_parse_total (k : CertKind) (data : List Nat) :
+    Safe (x509New k data) ∧
+    ∀ c, x509New k data = .ok c →
+      At data c.skid ∧ (∀ a, c.akid = some a → At data a) ∧ At data c.pk ∧ c.pk.1.length = 65 :=
+  x509New_post k data
+
+/-- the only error `X509Cert::new` returns is `InvalidData` -/
+theorem x509_only_invalid_data (k : CertKind) (data : List Nat) (e : E) (h : x509New k data = .error e) :
+    e = .invalidData :=
+  x509New_error k data h
+
+/-- **time values**: for every date of the Gregorian calendar from 1970-01-01 to 9999-12-31 with a time of day, both
+time decoders (`DateTime::new` followed by `DateTime::from_unix_duration`, as `UtcTime` / `GeneralizedTime` do) return
+the calendar fields that were written and the seconds `DateTime::new` counts -/
+theorem x509_time_roundtrip (c : Cal) (h : c.Valid) :
+    timeOfFields c.year c.month c.day c.hour c.minute c.second = .ok c.dt :=
+  timeOfFields_cal c h
+example : Cal.Valid { year := 2024, month := 2, day := 29, hour := 23, minute := 59, second := 59 } := by
+  unfold Cal.Valid; decide
+example : Cal.secs { year := 9999, month := 12, day := 31, hour := 23, minute := 59, second := 59 } = MAX_UNIX_SECS := by
+  decide
+
+/-- **X.509 round trip** (`parse (encode c) = c`): `X509Cert::new` of the certificate the model's DER writer produces
+from well-formed fields (version 3, any serial, issuer and subject with any readable attributes incl. the Matter VID /
+PID, validity, an uncompressed P-256 key, any list of extensions in any order) that meet the requirements of the
+certificate type returns — through its accessors — the subject key identifier, the authority key identifier, the key,
+the vendor / product id of the subject (four hexadecimal digits in any string type) and the validity that were
+written -/
+theorem x509_parse_encode (k : CertKind) (c : CertSpec) (idn sdn : DnAttrs) (s : List Nat) (a : Option (List Nat))
+    (hwf : c.WF)
+    (hi : dnFold c.issuer { vid := none, pid := none } = some idn)
+    (hs : dnFold c.subject { vid := none, pid := none } = some sdn)
+    (hext : extCheckV k c.extView = some (s, a))
+    (hval : validateIssuerSubject k idn sdn (encRdns c.issuer) (encRdns c.subject) = .ok ())
+    (hlen : (encCert c).length ≤ MAX_LEN) :
+    ∃ cert, x509New k (encCert c) = .ok cert ∧
+      cert.view = { skid := s, akid := a, pk := c.pk, vid := sdn.vid, pid := sdn.pid,
+                    notBefore := c.notBefore.dt, notAfter := c.notAfter.dt } :=
+  x509New_encCert k c idn sdn s a hwf hi hs hext hval hlen
+
+/-- a device attestation certificate: vendor 0xFFF1, product 0x8000, valid from 2021-06-28 without expiry -/
+def sampleDac : CertSpec :=
+  { serial := [0x23, 0x8a],
+    issuer := [{ oid := [0x55, 0x04, 0x03], tag := 0x0C, value := [80, 65, 73] },
+               { oid := OID_MATTER_VENDOR_ID, tag := 0x0C, value := [70, 70, 70, 49] }],
+    notBefore := { year := 2021, month := 6, day := 28, hour := 14, minute := 23, second := 43 },
+    notAfter := { year := 9999, month := 12, day := 31, hour := 23, minute := 59, second := 59 },
+    subject := [{ oid := [0x55, 0x04, 0x03], tag := 0x0C, value := [68, 65, 67] },
+                { oid := OID_MATTER_VENDOR_ID, tag := 0x0C, value := [70, 70, 70, 49] },
+                { oid := OID_MATTER_PRODUCT_ID, tag := 0x13, value := [56, 48, 48, 48] }],
+    pk := 4 :: List.replicate 64 7,
+    exts := [.other [0x55, 0x1d, 0x63] [5, 0], .keyUsage true 7 [0x80], .basicConstraints true false none,
+             .authorityKeyId false (List.replicate 20 2), .subjectKeyId false (List.replicate 20 1)],
+    signature := [0x30, 0x06, 2, 1, 1, 2, 1, 1] }
+
+theorem sampleDac_wf : sampleDac.WF where
+  issuer := by
+    intro a ha
+    simp only [sampleDac, List.mem_cons, List.not_mem_nil, or_false] at ha
+    rcases ha with rfl | rfl <;> exact ⟨by decide, rfl⟩
+  subject := by
+    intro a ha
+    simp only [sampleDac, List.mem_cons, List.not_mem_nil, or_false] at ha
+    rcases ha with rfl | rfl | rfl <;> exact ⟨by decide, rfl⟩
+  nb := by unfold Cal.Valid; decide
+  na := by unfold Cal.Valid; decide
+  pkLen := by decide
+  pkHead := by decide
+  exts := by
+    intro e he
+    simp only [sampleDac, List.mem_cons, List.not_mem_nil, or_false] at he
+    rcases he with rfl | rfl | rfl | rfl | rfl
+    · exact ⟨by decide, by decide, by decide, by decide, by decide⟩
+    · exact ⟨by decide, fun _ => by decide⟩
+    · intro p hp; cases hp
+    · trivial
+    · trivial
+
+set_option maxRecDepth 100000 in
+/-- the hypotheses of `x509_parse_encode` are satisfiable: the sample is a legal DAC -/
+example : sampleDac.WF ∧
+    dnFold sampleDac.issuer { vid := none, pid := none } = some { vid := some 0xFFF1, pid := none } ∧
+    dnFold sampleDac.subject { vid := none, pid := none } = some { vid := some 0xFFF1, pid := some 0x8000 } ∧
+    extCheckV .dac sampleDac.extView = some (List.replicate 20 1, some (List.replicate 20 2)) ∧
+    validateIssuerSubject .dac { vid := some 0xFFF1, pid := none } { vid := some 0xFFF1, pid := some 0x8000 }
+      (encRdns sampleDac.issuer) (encRdns sampleDac.subject) = .ok () ∧
+    (encCert sampleDac).length ≤ MAX_LEN :=
+  ⟨sampleDac_wf, by decide, by decide, by decide, rfl, by decide⟩
+
+/-- **whatever `X509Cert::new` accepts meets the profile of its certificate type** (so everything else is refused):
+BasicConstraints and KeyUsage present and critical, the subject key identifier present and returned, and
+* DAC: `cA = FALSE`, key usage exactly `digitalSignature`, authority key identifier present; issuer and subject carry the
+  same vendor id, the subject a product id, an issuer product id equals the subject's;
+* PAI: `cA = TRUE`, `pathLen = 0`, `keyCertSign` and `cRLSign` (optionally `digitalSignature`, nothing else), authority
+  key identifier present; the subject carries a vendor id, an issuer vendor id equals it;
+* PAA: `cA = TRUE`, `pathLen` absent or 1, the same key usage; no product id in issuer or subject, issuer and subject
+  byte for byte equal. -/
+theorem x509_accepts_only_profile (k : CertKind) (data : List Nat) (c : Cert) (h : x509New k data = .ok c) :
+    ∃ (f : ExtFields) (issuer subject : DnAttrs) (ir sr : List Nat) (ca : Bool) (pl : Option Nat) (bits : Nat) (sc : Bool),
+      f.bc = some (true, (ca, pl)) ∧ f.ku = some (true, bits) ∧ f.skid = some (sc, c.skid) ∧
+      c.akid = f.akid.map (·.2) ∧ extProfile k ca pl bits f.akid.isSome ∧
+      c.vid = subject.vid ∧ c.pid = subject.pid ∧ dnProfile k issuer subject ir sr := by
+  obtain ⟨f, e, issuer, subject, ir, sr, hext, hval, h1, h2, h3, h4⟩ := x509New_ok h
+  obtain ⟨ca, pl, bits, sc, e1, e2, e3, e4, e5⟩ := extCheck_sound hext
+  exact ⟨f, issuer, subject, ir, sr, ca, pl, bits, sc, e1, e2, by rw [h1]; exact e3, by rw [h2]; exact e4, e5, h3, h4,
+    validateIssuerSubject_sound hval⟩
+
+/-- **bytes after the certificate are refused** -/
+theorem x509_trailing_rejected (k : CertKind) (c : CertSpec) (rest : List Nat) (idn sdn : DnAttrs) (s : List Nat)
+    (a : Option (List Nat)) (hwf : c.WF)
+    (hi : dnFold c.issuer { vid := none, pid := none } = some idn)
+    (hs : dnFold c.subject { vid := none, pid := none } = some sdn)
+    (hext : extCheckV k c.extView = some (s, a))
+    (hval : validateIssuerSubject k idn sdn (encRdns c.issuer) (encRdns c.subject) = .ok ())
+    (hr : rest ≠ []) (hlen : (encCert c ++ rest).length ≤ MAX_LEN) :
+    x509New k (encCert c ++ rest) = .error .invalidData :=
+  x509New_trailing k c rest idn sdn s a hwf hi hs hext hval hr hlen
+
+set_option maxRecDepth 100000 in
+example : ([0] : List Nat) ≠ [] ∧ (encCert sampleDac ++ [0]).length ≤ MAX_LEN := ⟨by decide, by decide⟩
+
+set_option maxRecDepth 100000 in
+/-- the hypothesis of `x509_accepts_only_profile` is satisfiable: the sample DAC is accepted -/
+example : ∃ c, x509New .dac (encCert sampleDac) = .ok c := by
+  obtain ⟨c, h, _⟩ := x509_parse_encode .dac sampleDac { vid := some 0xFFF1, pid := none }
+    { vid := some 0xFFF1, pid := some 0x8000 } (List.replicate 20 1) (some (List.replicate 20 2)) sampleDac_wf
+    (by decide) (by decide) (by decide) rfl (by decide)
+  exact ⟨c, h⟩
+
+/-- **a Matter vendor / product id that is not four hexadecimal digits is refused** (whatever its string type):
+`parse_hex_u16` accepts exactly four hex digits, and an attribute it refuses makes `MatterDnAttrs::parse` fail -/
+theorem x509_bad_vendor_id_rejected :
+    (∀ s v, parseHexU16 s = some v → s.length = 4 ∧ ∀ b ∈ s, (hexDigit b).isSome) ∧
+    (∀ s, s.length ≠ 4 → parseHexU16 s = none) ∧
+    (∀ acc tag value, parseHexU16 value = none → dnApply acc (OID_MATTER_VENDOR_ID, (tag, value)) = .error .value) :=
+  ⟨fun _ _ h => parseHexU16_sound h, parseHexU16_length, dnApply_vid_rejected⟩
+example : parseHexU16 [70, 70, 70, 49] = some 0xFFF1 ∧ parseHexU16 [70, 70, 70] = none ∧ parseHexU16 [70, 70, 70, 71] = none := by
+  decide
+
+/-! ### CSR -/
+
+/-- **`CsrRef::new` is total** on arbitrary bytes; the key it hands out (65 octets) is a range of the input, the signed
+range (`certificationRequestInfo`) lies inside the input, converting the signature never panics and yields 64 octets -/
+theorem csr_parse_total (der : List Nat) :
+    Safe (csrNew der) ∧
+    ∀ c, csrNew der = .ok c →
+      At der c.pk ∧ c.pk.1.length = 65 ∧ c.tbsStart ≤ c.tbsEnd ∧ c.tbsEnd ≤ der.length ∧ Safe c.sig ∧
+      ∀ s, c.sig = .ok s → s.length = 64 :=
+  csrNew_post der
+
+/-- **CSR round trip**: structure, public key extraction, signature placement. `CsrRef::new` of the PKCS#10 request
+built from any subject, an uncompressed P-256 key, any attribute set and a signature `(r, s)` returns the key, the
+`certificationRequestInfo` element (tag and length included) as the range that `verify` hashes, and `pad32 r ‖ pad32 s`
+as the raw signature. Verification itself is the crypto backend's (symbolic here): it is run on exactly these. -/
+theorem csr_parse_encode (subject pk attrs r s : List Nat) (hl : pk.length = 65) (hh : pk.head? = some 0x04)
+    (hr : Canon 32 r) (hs : Canon 32 s) (hlen : (encCsr subject pk attrs r s).length ≤ MAX_LEN) :
+    ∃ c, csrNew (encCsr subject pk attrs r s) = .ok c ∧ c.pk.1 = pk ∧
+      ((encCsr subject pk attrs r s).drop c.tbsStart).take (c.tbsEnd - c.tbsStart) = encCsrInfo subject pk attrs ∧
+      c.sig = .ok (padLeft 32 r ++ padLeft 32 s) :=
+  csrNew_encCsr hl hh hr hs hlen
+set_option maxRecDepth 100000 in
+example : (4 :: List.replicate 64 9).length = 65 ∧ (4 :: List.replicate 64 9).head? = some 0x04 ∧ Canon 32 [5] ∧
+    (encCsr [0x31, 0x00] (4 :: List.replicate 64 9) [] [5] [6]).length ≤ MAX_LEN :=
+  ⟨by decide, by decide, ⟨by decide, by decide, by decide⟩, by decide⟩
+
+end C17
+
+/-! ### certification declaration: TLV content and validation -/
+namespace C17
+open Codec.Cd
+
+/-- **`CertificationElements::decode` never panics**, whatever the content (every Rust slice: length + 1 < 2^64);
+built on the never-panic theorems of the TLV reader (C16) -/
+theorem cd_decode_total (content : Tlv.Bytes) (h : content.length + 1 < Tlv.USIZE) : CSafe (decode content) :=
+  decode_safe content h
+
+example : ([0x15, 0x18] : Tlv.Bytes).length + 1 < Tlv.USIZE := by decide
+
+/-- **CD content round trip**: the TLV structure the model encoder writes (Matter layout: format version, vendor id,
+product id array, device type, certificate id, security level / information, version number, certification type, the
+optional DAC-origin pair and authorized-PAA list) decodes to exactly the elements that were written -/
+theorem cd_decode_encode (c : Elements) (h : c.Legal) : decode (encodeElements c) = .ok c :=
+  decode_encode c h
+
+def sampleCd : Elements :=
+  { formatVersion := 1, vendorId := 0xFFF1, productIds := [0x8000, 0x8001], deviceTypeId := 0x1234,
+    certificateId := [90, 73, 71, 50, 48, 49, 52, 49, 90, 66, 51, 51, 48, 48, 48, 49, 45, 50, 52],
+    securityLevel := 0, securityInformation := 0, versionNumber := 0x2694, certificationType := 0,
+    dacOrigin := some (0xFFF1, 0x8000), authorizedPaa := [List.replicate 20 0xAB] }
+
+example : sampleCd.Legal := by
+  refine ⟨rfl, by decide, by decide, by decide, by decide, by decide, by decide, by decide, by decide, by decide, by decide,
+    by decide, ?_, by decide, by decide⟩
+  intro x hx
+  simp only [sampleCd, Option.some.injEq] at hx
+  subst hx
+  decide
+
+/-- **whatever `decode` accepts** has format version 1, 1..100 product ids, a 19-octet certificate id, a defined
+certification type and at most 10 authorized PAA key ids of 20 octets — anything else is refused -/
+theorem cd_decode_accepts_only (content : Tlv.Bytes) (c : Elements) (h : decode content = .ok c) :
+    c.formatVersion = 1 ∧ 1 ≤ c.productIds.length ∧ c.productIds.length ≤ 100 ∧ c.certificateId.length = 19 ∧
+    c.certificationType ≤ 2 ∧ c.authorizedPaa.length ≤ 10 ∧ ∀ k ∈ c.authorizedPaa, k.length = 20 :=
+  decode_sound h
+
+/-- **`validate` = the rules of the specification**: format version 1; the CD's vendor id is the device's; the device's
+product id is listed; with a DAC-origin pair the DAC and PAI vendor ids equal the origin vendor id, the DAC product id
+the origin product id and a PAI product id (non-zero) too — without it the DAC and PAI vendor ids equal the CD's, the DAC
+product id and a PAI product id are listed; a non-empty authorized-PAA list contains the PAA's subject key identifier -/
+theorem cd_validate_spec (c : Elements) (d : DeviceInfo) : validate c d = .ok () ↔ validSpec c d :=
+  validate_ok_iff c d
+def sampleDevice : DeviceInfo :=
+  { vendorId := 0xFFF1, productId := 0x8001, dacVendorId := 0xFFF1, dacProductId := 0x8000, paiVendorId := 0xFFF1,
+    paiProductId := 0, paaSkid := List.replicate 20 0xAB }
+example : validSpec sampleCd sampleDevice := by
+  refine ⟨rfl, rfl, by decide, ⟨rfl, rfl, rfl, Or.inl rfl⟩, Or.inr (by decide)⟩
 
 end C17
